@@ -6,7 +6,10 @@ Open Scope N_scope.
 Lemma C03_facts_ok :
   C05.order_now = order_src /\ snapshot_on_apply_goroutine = Known true /\ snapshot_labelled_with_applied_index = Known true /\
   start_loads_snapshot = Known true /\ snapshot_is_index_save = Known true /\ load_accepts_empty = Known true /\ boot_rule_guarded = Known true /\
-  save_every_ready = Known true.
+  save_every_ready = Known true /\
+  (* a durable change of the log store is one write batch: the crash points of the model (before / after a Save or a
+     local snapshot + compaction) are the only ones there are *)
+  wal_calls_one_batch = Known true.
 Proof. repeat split; reflexivity. Qed.
 
 (* (1) persist before acknowledge: an entry is applied — the proposer's outcome is delivered inside the apply — only
